@@ -30,6 +30,7 @@ func init() {
 var c18Docs = map[string]string{
 	"A": "JSIGHT 0.3\nTYPE @t\n  {\"a\": 1, \"b\": {\"c\": [1,2]}}\nGET /a/{id}\n  200 @t\n  404\n    {\"e\": \"x\", \"f\": {\"g\": 2}}\n",
 	"B": "JSIGHT 0.3\nTYPE @u\n  {\"zzzz\": \"qqqq\", \"k\": {\"m\": [7,8,9]}}\nPOST /b\n  Request\n    {\"r\": @u}\n  201 @u\n",
+	"D": "JSIGHT 0.3\nTAG @t\nGET /o\n  Tags @t\n  404 any\n  200 any\n  403 any\n  200 empty\nPOST /o\n  500 any\n  201 any\n",
 	"C": "JSIGHT 0.3\nTYPE @r regex\n  /[a-f]{4}\\d\\d/\nTYPE @base\n  {\"p\": 1}\nTYPE @d\n  { // {allOf: \"@base\"}\n    \"q\": @r\n  }\nGET /c\n  200 @d\n  201 [@d]\n",
 }
 
@@ -46,6 +47,7 @@ var c18Scenarios = []c18Scenario{
 	{Name: "S2-one-catalog-J||O", Shared: "A", Threads: []string{"=:J", "=:O"}},
 	{Name: "S2-one-catalog-allOf-regex-J||I", Shared: "C", Threads: []string{"=:J", "=:I"}},
 	{Name: "S2-one-catalog-allOf-regex-O||J", Shared: "C", Threads: []string{"=:O", "=:J"}},
+	{Name: "S2-one-catalog-unordered-responses-J||O", Shared: "D", Threads: []string{"=:JI", "=:OP"}},
 	{Name: "S3-one-catalog-J||J||O", Shared: "C", Threads: []string{"=:J", "=:J", "=:O"}},
 }
 
